@@ -306,6 +306,20 @@ class Ctx:
                 ob.status = "proved"
                 ob.backend = "z3-cone"
                 ob.time_s = time.time() - t0
+                return
+            # same cone with every product of two non-constant factors replaced by an uninterpreted function:
+            # a weaker set of hypotheses in linear arithmetic, where the solver is complete (`unsat` is still a proof)
+            from .linabs import linabs
+            cache = {}
+            s3 = z3.Solver()
+            s3.set("timeout", 2000)
+            for k in chosen:
+                s3.add(linabs(facts[k], cache))
+            s3.add(linabs(z3.Not(g), cache))
+            if s3.check() == z3.unsat:
+                ob.status = "proved"
+                ob.backend = "z3-cone-linear-abstraction"
+                ob.time_s = time.time() - t0
         except z3.Z3Exception:
             pass
 
